@@ -16,7 +16,7 @@ func checkC09(c *fw.Ctx) {
 	c.Explanation = "C09 (static): (1) effect analysis over the call graph: no function reachable from the per-event check allowerContext.allowed writes a field of the shared allowerContext (directly or through the structs embedding it), so a reused checker gives the verdict a fresh one gives; update() is the only writer and pairs every cached content with its event pointer; the auth-event providers' accessors are write-free; (2) the needed-state computation accumulateStateNeeded is extracted as an effect table (which (type,state_key) classes are requested under which event type / membership / content facts) and compared with the rules' table; the membership values under which the membership rules read the join rule are shown to be a subset of those for which the join rules are requested; per event type the provider accessors reachable from the handler are a subset of what is requested; (3) state resolution refreshes the provider and the checker before every check; AddAuthEvents selects through the same needed-state computation."
 	c.NotDecidedClause("determinism under repeated evaluation beyond the absence of writes (no other source of non-determinism is looked for)")
 	c.NotDecidedClause("sufficiency of AddAuthEvents for other servers as a behaviour")
-	c.NotDecidedClause("aliasing through copied structs that share maps (e.g. a copied PowerLevelContent's Users map)")
+	c.NotDecidedClause("aliasing through values whose provenance is neither a local construction nor the checker's own fields (call results, globals)")
 	root := mustFunc(c, "1 no-write", "(*allowerContext).allowed")
 	if root == nil {
 		return
@@ -52,6 +52,46 @@ func checkC09(c *fw.Ctx) {
 			}
 		}
 	}
+	// writes through references that alias the shared context: a map (or slice) reached by copying a
+	// struct out of the context still is the context's map
+	isCtxField := func(v ssa.Value) bool {
+		fa, ok := v.(*ssa.FieldAddr)
+		if !ok {
+			return false
+		}
+		st := derefStructOf(fa.X.Type())
+		return st != nil && ctxFields[st.Field(fa.Field).Name()] == st.Field(fa.Field)
+	}
+	nalias := 0
+	for _, k := range names {
+		f := byName[k]
+		for _, w := range fw.WritesIn(f) {
+			if w.Kind == "store" && !w.Path.Index {
+				continue
+			}
+			var ref ssa.Value
+			switch x := w.Instr.(type) {
+			case *ssa.MapUpdate:
+				ref = x.Map
+			case ssa.CallInstruction:
+				if len(x.Common().Args) > 0 {
+					ref = x.Common().Args[0]
+				}
+			case *ssa.Store:
+				if ia, ok := x.Addr.(*ssa.IndexAddr); ok {
+					ref = ia.X
+				}
+			}
+			if ref == nil {
+				continue
+			}
+			nalias++
+			if sharedRef(c, ref, f, isCtxField, reach, 0) {
+				c.Fail("1 no-write", fmt.Sprintf("%s does not write through a map or slice of the shared context", fw.FuncName(f)), c.P.Pos(fw.InstrPos(w.Instr)), fmt.Sprintf("%s is written during a check, and it is (a copy of a struct holding) a map or slice of the shared allowerContext: the cached state changes, so the verdict of later events through the same checker depends on which events were checked before (call chain %s)", fw.Sig(ref), fw.ChainString(reach[f])))
+			}
+		}
+	}
+	c.Count("reference_writes_inspected", nalias)
 	c.Count("functions_reachable_from_allowed", nfn)
 	c.Count("writes_inspected", nw)
 	c.Min("1 no-write reachable functions", nfn, 10)
@@ -212,7 +252,7 @@ func checkNeeded(c *fw.Ctx) {
 	vars := []tvar{{"type", []string{"m.room.create", "m.room.aliases", "m.room.member", "m.other"}}, {"membership", []string{"join", "knock", "invite", "leave", "ban", "other"}},
 		{"content", tf}, {"sk", tf}, {"tpi", tf}, {"token", tf}, {"via", tf}}
 	ip := &interp{
-		lhs: map[string]string{"param:eventType": "type", "*param:content.Membership": "membership"},
+		lhs:   map[string]string{"param:eventType": "type", "*param:content.Membership": "membership"},
 		bools: map[string]string{},
 		match: func(atom string, a asg) (bool, bool) {
 			switch atom {
@@ -407,4 +447,95 @@ func checkResolutionRefresh(c *fw.Ctx) {
 	for _, call := range fw.CallsTo(fn, false, fw.NameIs("(*gmsl.allowerContext).update")) {
 		c.Check(strings.HasSuffix(fw.Sig(call.Common().Args[1]), "recv.authProvider"), rule, "the checker is refreshed from the resolver's provider", c.P.Pos(call.Pos()), "", "update() receives "+fw.Sig(call.Common().Args[1]))
 	}
+}
+
+// sharedRef: the map / slice value ref (in function f) is, or is copied out of, a field of the
+// shared context. Only reference-preserving steps are followed (loading the reference from a
+// field, copying the struct that holds it, passing it as an argument); locally made maps,
+// slices and arrays are local whatever they contain. Parameters are followed to the arguments
+// of f's static callers among the functions reachable from the check.
+func sharedRef(c *fw.Ctx, ref ssa.Value, f *ssa.Function, isCtxField func(ssa.Value) bool, reach map[*ssa.Function][]*ssa.Function, depth int) bool {
+	if depth > 3 {
+		return false
+	}
+	seen := map[ssa.Value]bool{}
+	var params []*ssa.Parameter
+	var walk func(v ssa.Value, d int) bool
+	// structOrigin: the struct value/address sv holds the reference in one of its fields
+	walk = func(v ssa.Value, d int) bool {
+		if v == nil || d > 24 || seen[v] {
+			return false
+		}
+		seen[v] = true
+		switch x := v.(type) {
+		case *ssa.MakeMap, *ssa.MakeSlice, *ssa.Const, *ssa.Global, *ssa.Call, *ssa.MakeInterface:
+			return false
+		case *ssa.Parameter:
+			params = append(params, x)
+			return false
+		case *ssa.Phi:
+			for _, e := range x.Edges {
+				if walk(e, d+1) {
+					return true
+				}
+			}
+			return false
+		case *ssa.Slice:
+			return walk(x.X, d+1)
+		case *ssa.ChangeType:
+			return walk(x.X, d+1)
+		case *ssa.Extract:
+			return false
+		case *ssa.Field:
+			return walk(x.X, d+1)
+		case *ssa.FieldAddr:
+			if isCtxField(x) {
+				return true
+			}
+			return walk(x.X, d+1)
+		case *ssa.IndexAddr:
+			return walk(x.X, d+1)
+		case *ssa.UnOp:
+			// a load: of a field (the reference, or a pointer to the struct holding it), or of a
+			// whole struct out of a local copy
+			return walk(x.X, d+1)
+		case *ssa.Alloc:
+			// a local variable: what was stored into it as a whole (a copied struct, a pointer)
+			// or into the same field; arrays and freshly built structs are local
+			for _, r := range *x.Referrers() {
+				if st, ok := r.(*ssa.Store); ok && st.Addr == ssa.Value(x) {
+					if walk(st.Val, d+1) {
+						return true
+					}
+				}
+			}
+			return false
+		}
+		return false
+	}
+	if walk(ref, 0) {
+		return true
+	}
+	for _, p := range params {
+		idx := -1
+		for i, q := range f.Params {
+			if q == p {
+				idx = i
+			}
+		}
+		if idx < 0 {
+			continue
+		}
+		for caller := range reach {
+			for _, call := range fw.Calls(caller) {
+				if call.Common().StaticCallee() != f || idx >= len(call.Common().Args) {
+					continue
+				}
+				if sharedRef(c, call.Common().Args[idx], caller, isCtxField, reach, depth+1) {
+					return true
+				}
+			}
+		}
+	}
+	return false
 }
